@@ -120,6 +120,45 @@ pub fn check(sh: &Shared, c: &Case) -> Check {
             }
         }
     }
+    // the outcome does not depend on the KIND of iterator (exact-size, filtered, generated, chained)
+    {
+        let want = guard(|| Truth::try_from_floats(v.clone().into_iter())).ok();
+        let vv = v.clone();
+        let mut i = 0usize;
+        let variants: Vec<Option<Result<Truth, String>>> = vec![
+            guard(|| Truth::try_from_floats(v.clone().into_iter().filter(|_| true))).ok(),
+            guard(|| Truth::try_from_floats(std::iter::from_fn(move || { let r = vv.get(i).copied(); i += 1; r }))).ok(),
+            guard(|| Truth::try_from_floats(v.iter().copied().chain(std::iter::empty()))).ok(),
+            guard(|| Truth::try_from_floats(v.iter().map(|x| x.to_string()).collect::<Vec<_>>().iter().filter_map(|s| s.parse::<f64>().ok()))).ok(),
+        ];
+        let same = |a: &Option<Result<Truth, String>>, b: &Option<Result<Truth, String>>| match (a, b) {
+            (None, None) => true,
+            (Some(Err(_)), Some(Err(_))) => true,
+            (Some(Ok(x)), Some(Ok(y))) => format!("{x:?}") == format!("{y:?}"),
+            _ => false,
+        };
+        // (the string round-trip variant is only comparable when no NaN payload is involved)
+        let nan = v.iter().any(|x| x.is_nan());
+        for (k, var) in variants.iter().enumerate() {
+            if k == 3 && nan {
+                continue;
+            }
+            if !same(&want, var) {
+                fail!("truth:iterator-kind", "Truth::try_from_floats({show:?}) gives {want:?} from a Vec iterator but {var:?} from iterator variant {k} (0 filter, 1 from_fn, 2 chain, 3 parsed strings)");
+            }
+        }
+        let wantb = guard(|| Budget::try_from_floats(v.clone().into_iter())).ok();
+        let varb = guard(|| Budget::try_from_floats(v.clone().into_iter().filter(|_| true))).ok();
+        let sameb = match (&wantb, &varb) {
+            (None, None) => true,
+            (Some(Err(_)), Some(Err(_))) => true,
+            (Some(Ok(x)), Some(Ok(y))) => format!("{x:?}") == format!("{y:?}"),
+            _ => false,
+        };
+        if !sameb {
+            fail!("budget:iterator-kind", "Budget::try_from_floats({show:?}) gives {wantb:?} from a Vec iterator but {varb:?} from a filtered iterator");
+        }
+    }
     // ---- Budget
     sh.eval();
     let consumed_ok = v.iter().take(3).all(|x| in01(*x));
